@@ -26,6 +26,7 @@ namespace
         bool stopper{false};
         long end_us{1'000'000};
         long late_us{0};                                 // the wall clock at run() is this far past start_time
+        int cascade{0};                                  // the first `cascade` evaluations re-schedule the node one smallest step ahead
         // log
         std::vector<long> cycles;                        // evaluation time of every root cycle (relative us)
         std::vector<long> cycle_wall;                    // wall clock at the start of that cycle
@@ -99,7 +100,9 @@ namespace
             if (rel(clock.now()) < rel(evaluation_time) && W->error.empty())
                 W->error = "timer node evaluated at logical time " + std::to_string(rel(evaluation_time)) + " while the wall clock was only at " + std::to_string(rel(clock.now())) + " (ran early)";
             out.set(Int{k});
-            if (static_cast<std::size_t>(k) < W->scripts.size()) run_ops(W->scripts[static_cast<std::size_t>(k)], sched, clock, false);
+            if (k < W->cascade) { run_ops({Op{'r', 1}}, sched, clock, false); return; }
+            const std::size_t script_index = static_cast<std::size_t>(k - (W->cascade > 0 ? W->cascade - 1 : 0));
+            if (script_index < W->scripts.size()) run_ops(W->scripts[script_index], sched, clock, false);
         }
     };
     struct PushSink
@@ -267,6 +270,7 @@ namespace
             else if (k == "bound") bound = std::stoi(v);
             else if (k == "end") w.end_us = std::stol(v);
             else if (k == "late") w.late_us = std::stol(v);
+            else if (k == "cas") w.cascade = std::stoi(v);
             else if (k == "tm")
             {
                 for (auto &part : vs::split(v, '|'))
@@ -326,6 +330,11 @@ void verif_enumerate(verif::Ctx &ctx)
                             const int bound = th ? (weight <= 1 ? 3 : 2) : (weight == 0 ? 3 : weight == 1 ? 2 : 1);
                             configs.push_back("tm=" + sm + (em.empty() ? "" : "|" + em) + ";push=" + std::to_string(push) + ";stop=" + std::to_string(stop) + ";end=" + std::to_string(end) + ";late=" + std::to_string(late) + ";bound=" + std::to_string(bound));
                         }
+    // immediate cascades (the drain cut-off past end_time applies only while the run keeps re-scheduling itself every smallest step):
+    // after N >= 1024 one-step cycles the last of which crosses end_time, a wake-up 5 ms later is still due before end_time and must be delivered
+    for (int n : {1030, 1500})
+        for (const char *tail : {"L2000000,r5000", "L2000000,w-5", "L2000000,r5000,w7000"})
+            configs.push_back(std::string{"tm=r0|"} + tail + ";cas=" + std::to_string(n) + ";push=0;stop=0;end=1000000;late=0;bound=1");
     for (auto &desc : configs)
     {
         int b = 2; std::vector<int> prefix; bool hp = false;
